@@ -1,5 +1,7 @@
 import LyModel.Diff.Lemmas13Merge
 import LyModel.Diff.Lemmas13Inv
+import LyModel.Diff.LemmasExact
+import LyModel.Diff.LemmasRevLit
 /-!
 # C13 — diffs can be reversed and composed (`src/diff.c`: `lyd_diff_reverse_all`, `lyd_diff_merge_all`)
 
@@ -9,7 +11,14 @@ Fragment predicates (executable, Diff/Exact13.lean): `goodT S A` — a tree of l
 lists and leaf-lists in libyang's sibling order; `exactDiff S A D` — `D` is an exact diff for `A` (what
 `lyd_diff_siblings(…, LYD_DIFF_DEFAULTS)` produces on the fragment; checked on every generated pair by the check module).
 `KeyOrder S` (Diff/Lemmas13Ord.lean) is the hypothesis that the `sort` callbacks order list / leaf-list instances strictly and
-totally; `keyOrder_of_stringLL` discharges it for schemas whose system-ordered nodes are string leaf-lists.
+totally; `keyOrder_of_stringLL` discharges it for schemas whose system-ordered nodes are string leaf-lists.  LIMITATION: it
+cannot hold for a schema with a keyed list (`keyOrder_no_keyed_list`), so the theorems that assume it cover leaves, containers
+and system-ordered leaf-lists only; the ones that do not (`diff_exact`, `reverse_involutive_diff`, `merge_cancel*` in
+Props/C13Merge.lean, `Diff.apply_congr`) cover keyed lists as well.
+
+Every computed diff is exact: `diff_exact` (for the well-formed trees `wfForest` of C06 — `goodT` alone is not enough:
+`diff_exact_goodT_fails`); with it `reverse_apply_diff`, `reverse_apply` (the law as the check evaluates it, with the literal
+second tree) and `reverse_involutive_diff` hold without a hypothesis on the diff.
 -/
 namespace LyModel.Props.C13
 open LyModel LyModel.Tree LyModel.Diff
@@ -19,7 +28,8 @@ open LyModel LyModel.Tree LyModel.Diff
 /-- `reverse_apply`, the true part: for trees of leaves, containers, choices, system-ordered lists and leaf-lists at any depth
 (`goodT`), the reversed diff of an exact diff `D` applied to the tree `D` leads to gives the original tree back — structure,
 values and the default flags of all leaves / leaf-list instances (`dataEqL true`, the comparison with `LYD_COMPARE_DEFAULTS`).
-No bound on depth, width or the number of changes. -/
+No bound on depth, width or the number of changes.  (`KeyOrder S` excludes schemas with keyed lists: `keyOrder_no_keyed_list`;
+the hypothesis `hD` holds for every computed diff: `diff_exact`.) -/
 theorem reverse_apply_partial {S : Schema} {fx : Fixes} (K : KeyOrder S) {A D : List DNode} (hA : goodT S A = true)
     (hD : exactDiff S A D = true) :
     ∃ B R A', apply S A D fx = .ok B ∧ reverse S D = .ok R ∧ apply S B R fx = .ok A' ∧ dataEqL true A' A = true := by
@@ -33,10 +43,72 @@ theorem reverse_apply_diff_partial {S : Schema} {fx : Fixes} (K : KeyOrder S) {A
       dataEqL true A' A = true :=
   reverse_apply_partial K hA hD
 
--- OPEN: `diff_exact : goodT S A → goodT S B → exactDiff S A (diff S true A B) = true` and `apply S A (diff S true A B) ≈ B`
--- belong to the characterisation of `diff` (C06, component diff); `exactDiff` is evaluated on every generated pair instead
--- (tools/checks/c13.py, op `exact`).  The statement with the literal second tree, `apply B₀ (reverse (diff A B₀)) ≈ A`,
--- additionally needs that `apply` respects `dataEqL true` in its data argument.
+/-! ### every computed diff is exact -/
+
+/-- `diff_exact`: for well-formed trees over the fragment (`wfForest`, the trees of C06 `apply_diff_partial`: leaves, containers,
+system-ordered keyed lists and leaf-lists in libyang's order, list keys where the schema puts them, no metadata, any depth),
+what `lyd_diff_siblings(A, B, LYD_DIFF_DEFAULTS)` computes is an exact diff for `A`: every diff node addresses a different
+instance and says the truth about it (`exactDiff`).  This discharges the hypothesis of `reverse_apply_partial` /
+`reverse_involutive` for every computed diff.  No hypothesis on the `sort` callbacks is needed. -/
+theorem diff_exact (S : Schema) (A B : List DNode) (hA : wfForest S A = true) (hB : wfForest S B = true) :
+    exactDiff S A (diff S true A B) = true :=
+  exactDiff_diff S A B hA hB
+
+/-- the trees of C06 are trees of the C13 fragment -/
+theorem wfForest_goodT (S : Schema) (A : List DNode) (hA : wfForest S A = true) : goodT S A = true :=
+  goodT_of_wfForest S A hA
+
+/-- `diff_exact` is false as written for `goodT` alone: `goodT` does not say where list-key leaves may occur, and a diff node
+for a key leaf is never exact (`exactE` demands `!S.isKey`; apply skips the leading keys of a diff level).  A = one key leaf
+at the top level (not a data tree libyang can build), B = empty: the diff is `delete` of that leaf. -/
+def keyS : Schema := { modName := "keytop", nodes := [ { depth := 0, kind := .leaf, name := "k", iskey := true } ] }
+
+theorem diff_exact_goodT_fails :
+    ¬ ∀ (S : Schema) (A B : List DNode), goodT S A = true → goodT S B = true → exactDiff S A (diff S true A B) = true := by
+  intro h
+  have h1 := h keyS [.term 0 {} [] (bs "x")] [] (by decide +kernel) (by decide +kernel)
+  have h2 : exactDiff keyS [.term 0 {} [] (bs "x")] (diff keyS true [.term 0 {} [] (bs "x")] []) = false := by decide +kernel
+  rw [h1] at h2
+  exact absurd h2 (by decide)
+
+/-- C06 `apply_diff_partial` in the observation of C13: applying the computed diff to `A` gives `B` (`dataEqL true`) -/
+theorem apply_diff_obs (S : Schema) (fx : Fixes) (A B : List DNode) (hA : wfForest S A = true) (hB : wfForest S B = true)
+    (hk : KeysDistinguished S (A ++ B)) :
+    ∃ B', apply S A (diff S true A B) fx = .ok B' ∧ goodT S B' = true ∧ dataEqL true B' B = true := by
+  obtain ⟨B', h1, h2, h3, _⟩ := Diff.diff_chain_exact S fx A B B hA hB hB hk
+  exact ⟨B', h1, h2, (dataEqL_iff_norm B' B).mpr h3⟩
+
+/-- `reverse_apply` on the fragment, unconditionally: for well-formed `A`, `B` the reversed diff of `diff(A, B)`, applied to the
+tree the diff leads to, gives `A` back (structure, values, default flags of leaves / leaf-list instances). -/
+theorem reverse_apply_diff {S : Schema} {fx : Fixes} (K : KeyOrder S) {A B₀ : List DNode} (hA : wfForest S A = true)
+    (hB : wfForest S B₀ = true) :
+    ∃ B R A', apply S A (diff S true A B₀) fx = .ok B ∧ reverse S (diff S true A B₀) = .ok R ∧ apply S B R fx = .ok A' ∧
+      dataEqL true A' A = true :=
+  reverse_apply_partial K (goodT_of_wfForest S A hA) (diff_exact S A B₀ hA hB)
+
+/-- `reverse_apply` on the fragment, with the literal second tree — the law as the check evaluates it (`reverseApply` =
+`lyd_diff_apply_all(B, lyd_diff_reverse_all(lyd_diff_siblings(A, B, DEFAULTS)))`): for well-formed `A`, `B` it succeeds and
+gives `A` back (structure, values, default flags of leaves / leaf-list instances).  Combines C06 `apply_diff_partial` (its
+hypothesis `KeysDistinguished` follows from `KeyOrder`: `keysDistinguished_of_keyOrder`), `diff_exact`, `reverse_apply_partial`
+and `apply_congr` (Diff/LemmasCongr.lean): `lyd_diff_apply_all` respects the observation in its data argument, for every diff
+and every schema. -/
+theorem reverse_apply {S : Schema} {fx : Fixes} (K : KeyOrder S) (A B : List DNode) (hA : wfForest S A = true)
+    (hB : wfForest S B = true) :
+    ∃ A', reverseApply S true A B fx = .ok A' ∧ dataEqL true A' A = true := by
+  obtain ⟨R, A', hR, hA', hn⟩ := reverse_apply_literal (fx := fx) K A B hA hB
+  refine ⟨A', ?_, (dataEqL_iff_norm A' A).mpr hn⟩
+  simp [reverseApply, hR, Except.bind, applyD, hA']
+
+/-- LIMITATION of every theorem here that assumes `KeyOrder S`: the hypothesis cannot hold for a schema with a keyed
+system-ordered list that has a key leaf.  `KeyOrder` quantifies over all nodes of the right shape (`Dom`), also list instances
+whose key children are missing: `x` = an instance without key children, `y` = one with a key child are not the same instance
+(`sameInst`) and `cmpInst` (`rb_compare_lists` stops at the shorter key list) cannot order them, against `KeyOrder.total`.  So
+`reverse_apply*` / `merge_cell_apply` speak about leaves, containers and system-ordered leaf-lists (`keyOrder_of_stringLL`);
+for keyed lists `KeyOrder` would have to be restricted to instances with all their keys (a stronger `Dom` / `goodT`).
+`diff_exact`, `reverse_involutive_diff` and `apply_congr` do not assume `KeyOrder` and cover keyed lists. -/
+theorem keyOrder_no_keyed_list {S : Schema} (K : KeyOrder S) {s k : Nat} (hs : S.isSorted s = true)
+    (hl : S.isKind s .list = true) (hk : S.isKey k = true) : False :=
+  keyOrder_no_keyed_list' K hs hl hk
 
 /-! ### a non-trivial instance: leaf replace with default-flag change, leaf delete, leaf-list create / delete, container delete -/
 
@@ -67,6 +139,19 @@ theorem reverse_involutive {S : Schema} {A D : List DNode} (hD : exactDiff S A D
   reverse_reverse hD hstd
 
 example : stdL (diff exS true exA exB) = true := by decide +kernel
+example : wfForest exS exA = true ∧ wfForest exS exB = true := by decide +kernel
+example : ∃ A', reverseApply exS true exA exB = .ok A' ∧ dataEqL true A' exA = true :=
+  reverse_apply (keyOrder_of_stringLL (by decide +kernel)) exA exB (by decide +kernel) (by decide +kernel)
+example : exactDiff exS exA (diff exS true exA exB) = true := diff_exact exS exA exB (by decide +kernel) (by decide +kernel)
+
+/-- `reverse_involutive` for every computed diff of well-formed trees, unconditionally: `diff(A, B)` is exact (`diff_exact`)
+and has the metadata layout `lyd_diff_add` writes (`stdL_diff`). -/
+theorem reverse_involutive_diff {S : Schema} {A B : List DNode} (hA : wfForest S A = true) (hB : wfForest S B = true) :
+    ∃ R, reverse S (diff S true A B) = .ok R ∧ reverse S R = .ok (revDupL (diff S true A B)) :=
+  reverse_reverse (diff_exact S A B hA hB) (stdL_diff S A B hA hB)
+
+example : ∃ R, reverse exS (diff exS true exA exB) = .ok R ∧ reverse exS R = .ok (revDupL (diff exS true exA exB)) :=
+  reverse_involutive_diff (by decide +kernel) (by decide +kernel)
 
 /-- `reverse_apply` is false as written for user-ordered leaf-lists (finding F15(a)): the reversed moves keep their forward
 order.  A = `0 1 2`, B = `1 2 0`: the result is `0 2 1`. -/
@@ -118,6 +203,17 @@ def lnS : Schema := { modName := "t4lnw", nodes := [
 def lnT (n : DNode) : List DNode := [ .inner 0 {} [] [ tm 1 "0", n ] ]
 def lnDflt : DNode := .inner 2 { dflt := true } [] [ tm 3 "dv" true ]
 def lnV : DNode := .inner 2 {} [] [ tm 3 "v" ]
+
+/-- `diff_exact`, `reverse_involutive_diff` on a keyed list (not covered by `KeyOrder`): nested value change with a default node -/
+example : wfForest lnS (lnT lnV) = true ∧ wfForest lnS (lnT lnDflt) = true ∧ (diff lnS true (lnT lnV) (lnT lnDflt)).length = 1 := by
+  decide +kernel
+example : exactDiff lnS (lnT lnV) (diff lnS true (lnT lnV) (lnT lnDflt)) = true :=
+  diff_exact lnS _ _ (by decide +kernel) (by decide +kernel)
+example : ∃ R, reverse lnS (diff lnS true (lnT lnV) (lnT lnDflt)) = .ok R ∧
+    reverse lnS R = .ok (revDupL (diff lnS true (lnT lnV) (lnT lnDflt))) :=
+  reverse_involutive_diff (by decide +kernel) (by decide +kernel)
+example : ¬ KeyOrder lnS := fun K => keyOrder_no_keyed_list K (s := 0) (k := 1) (by decide +kernel) (by decide +kernel)
+  (by decide +kernel)
 
 theorem merge_apply_nodefaults_fails :
     ¬ ∀ (S : Schema) (A B C : List DNode), canonB S A = true → canonB S B = true → canonB S C = true →
@@ -199,5 +295,23 @@ theorem merge_table_accepts (sop cop : Op) (h : (opCode sop, opCode cop) ∈ Gen
     | exact ⟨cellN "none" "x" [("orig-default", bs "true")],
         cellN "replace" "z" [("orig-default", bs "false"), ("orig-value", bs "x")], by decide +kernel⟩
     | exact ⟨cellN "create" "x", cellN "none" "x" [("orig-default", bs "false")], by decide +kernel⟩
+
+/-- `merge_apply` over the trees of the fragment needs one more hypothesis than F18: the cell `none` + `replace` clears the
+default flag instead of taking the one of the second diff (`merge_cell_none_replace`, hypothesis `hnd`).  A = `f = d` (explicit),
+B = `f = d` (default-flagged), C = `f = e` default-flagged: the merged diff makes `f = e` without the flag.  Not reachable from
+validated data (a leaf that carries `LYD_DEFAULT` has its one schema default value, so B and C cannot both be flagged with
+different values) — `wfForest` / `goodT` do not say so; a tree-level `merge_apply_partial` has to assume it. -/
+theorem merge_apply_dfltvalue_fails :
+    ¬ ∀ (S : Schema) (A B C : List DNode), wfForest S A = true → wfForest S B = true → wfForest S C = true →
+        ∃ C', mergeApply S true {} A B C = .ok C' ∧ dataEqL true C' C = true := by
+  intro h
+  obtain ⟨C', h1, h2⟩ := h cellS [tm 0 "d"] [tm 0 "d" true] [tm 0 "e" true] (by decide +kernel) (by decide +kernel)
+    (by decide +kernel)
+  have h3 : (match mergeApply cellS true {} [tm 0 "d"] [tm 0 "d" true] [tm 0 "e" true] with
+      | .ok r => dataEqL true r [tm 0 "e" true] | .error _ => false) = false := by decide +kernel
+  rw [h1] at h3
+  simp only at h3
+  rw [h2] at h3
+  exact absurd h3 (by decide)
 
 end LyModel.Props.C13
